@@ -427,9 +427,11 @@ func (op *redirOp) exec(fm *Frame, fops *[]formOwnedPort) Exception {
 
 	dstPort := growAccess(&fm.ports, dst)
 	dstFop := growAccess(fops, dst)
-	if *dstPort != nil {
-		dstFop.close(*dstPort)
-		*dstFop = formOwnedPort{File: false, Chan: false}
+	closeOldDst := func() {
+		if *dstPort != nil {
+			dstFop.close(*dstPort)
+			*dstFop = formOwnedPort{File: false, Chan: false}
+		}
 	}
 
 	if op.srcIsFd {
@@ -437,6 +439,12 @@ func (op *redirOp) exec(fm *Frame, fops *[]formOwnedPort) Exception {
 		if err != nil {
 			return fm.errorp(op, err)
 		}
+		if src == dst && *dstPort != nil {
+			// Redirecting a port to itself is a no-op. In particular, the
+			// port must not be closed and then reused.
+			return nil
+		}
+		closeOldDst()
 		switch {
 		case src == -1:
 			// close
@@ -450,6 +458,7 @@ func (op *redirOp) exec(fm *Frame, fops *[]formOwnedPort) Exception {
 		}
 		return nil
 	}
+	closeOldDst()
 	src, err := evalForValue(fm, op.srcOp, "redirection source")
 	if err != nil {
 		return fm.errorp(op, err)
